@@ -174,7 +174,7 @@ package bufiox
 
 //@ func maxSizeStats.maxSize
 //@   arith int
-//@   props C04, C05
+//@   props C01, C02, C03, C04, C05, C06, C08, C10, C12, C16, C17
 //@   requires !isnil(s) && statsOK(s)
 //@   ensures 0 <= ret && ret <= 0x800000000000
 //@   assigns \nothing
@@ -182,14 +182,14 @@ package bufiox
 
 //@ func maxSizeStats.update
 //@   arith int
-//@   props C04, C05
+//@   props C01, C02, C03, C04, C05, C06, C08, C10, C12, C16, C17
 //@   requires !isnil(s) && statsOK(s) && 0 <= size && size <= 0x800000000000
 //@   ensures statsOK(s)
 //@   assigns *s
 
 //@ func DefaultReader.acquireSlow
 //@   arith int
-//@   props C01, C02, C04, C08, C09, C12, C17
+//@   props C01, C02, C03, C04, C08, C09, C10, C12, C16, C17
 //@   requires drInv(r) && rdPool(r) && 0 <= n && n <= 0x400000000000 && n > len(r.buf) - r.ri
 //@   let U = drU(r)
 //@   ensures drInv(r) && rdPool(r) && same(drU(r), U) && r.ri == old(r.ri)
@@ -208,7 +208,7 @@ package bufiox
 
 //@ func DefaultReader.acquire
 //@   arith int
-//@   props C01, C02, C04, C08, C09, C12, C17
+//@   props C01, C02, C03, C04, C08, C09, C10, C12, C16, C17
 //@   requires drInv(r) && rdPool(r) && 0 <= n && n <= 0x400000000000
 //@   let U = drU(r)
 //@   ensures drInv(r) && rdPool(r) && same(drU(r), U) && r.ri == old(r.ri)
@@ -220,7 +220,7 @@ package bufiox
 
 //@ func DefaultReader.Next
 //@   arith int
-//@   props C01, C02, C04, C08, C09, C12, C17
+//@   props C01, C02, C03, C04, C08, C09, C10, C12, C16, C17
 //@   refines Reader.Next
 //@   requires drInv(r) && rdPool(r) && n <= 0x400000000000
 //@   ensures drInv(r) && rdPool(r) && n <= 0x400000000000
@@ -229,7 +229,7 @@ package bufiox
 
 //@ func DefaultReader.Peek
 //@   arith int
-//@   props C01, C02, C04, C08, C09, C12, C17
+//@   props C01, C02, C03, C04, C08, C09, C10, C12, C16, C17
 //@   refines Reader.Peek
 //@   requires drInv(r) && rdPool(r) && n <= 0x400000000000
 //@   ensures drInv(r) && rdPool(r) && n <= 0x400000000000
@@ -237,7 +237,7 @@ package bufiox
 
 //@ func DefaultReader.Skip
 //@   arith int
-//@   props C01, C02, C04, C08, C09, C12, C17
+//@   props C01, C02, C03, C04, C08, C09, C10, C12, C16, C17
 //@   refines Reader.Skip
 //@   requires drInv(r) && rdPool(r) && n <= 0x400000000000
 //@   ensures drInv(r) && rdPool(r) && n <= 0x400000000000
@@ -245,13 +245,13 @@ package bufiox
 
 //@ func DefaultReader.ReadLen
 //@   arith int
-//@   props C01, C02, C04, C08, C12, C17
+//@   props C01, C02, C03, C04, C08, C10, C12, C16, C17
 //@   refines Reader.ReadLen
 //@   ensures n == r.ri
 
 //@ func DefaultReader.ReadBinary
 //@   arith int
-//@   props C01, C02, C04, C08, C09, C12, C17
+//@   props C01, C02, C03, C04, C08, C09, C10, C12, C16, C17
 //@   refines Reader.ReadBinary
 //@   requires drInv(r) && rdPool(r) && region(bs) != region(r.buf) && len(bs) <= 0x400000000000
 //@   ensures drInv(r) && rdPool(r) && region(bs) != region(r.buf) && len(bs) <= 0x400000000000
@@ -259,7 +259,7 @@ package bufiox
 
 //@ func DefaultReader.Release
 //@   arith int
-//@   props C01, C02, C04, C08, C09, C12, C17
+//@   props C01, C02, C03, C04, C08, C09, C10, C12, C16, C17
 //@   refines Reader.Release
 //@   requires drInv(r) && rdPool(r)
 //@   ensures drInv(r) && rdPool(r)
@@ -279,14 +279,14 @@ package bufiox
 
 //@ func fakeIOReader.Read
 //@   arith int
-//@   props C01, C02, C04, C08, C09, C12, C17
+//@   props C01, C02, C03, C04, C08, C09, C10, C12, C16, C17
 //@   refines io.Reader.Read
 //@   ensures n == 0 && err == io.EOF
 //@   assigns \nothing
 
 //@ func NewDefaultReader
 //@   arith int
-//@   props C01, C02, C04, C08, C12, C17
+//@   props C01, C02, C03, C04, C08, C10, C12, C16, C17
 //@   requires !isnil(rd)
 //@   ensures fresh(ret) && drInv(ret) && rdPool(ret) && same(ret.rd, rd) && ret.ri == 0 && isnil(ret.buf) && isnil(ret.err)
 
@@ -295,7 +295,7 @@ package bufiox
 // bytes is a choice of ghost state at construction: the eqbytes conjunct of drInv is trusted.
 //@ func NewBytesReader
 //@   arith int
-//@   props C01, C02, C04, C08, C09, C12, C17
+//@   props C01, C02, C03, C04, C08, C09, C10, C12, C16, C17
 //@   ensures fresh(ret) && ret.ri == 0 && (cap(buf) > 0 ==> same(ret.buf, buf) && ret.bufReadOnly) && (cap(buf) == 0 ==> isnil(ret.buf)) && isnil(ret.err) && !isnil(ret.rd) && len(ret.rd.$f) == 0
 //@   ensures rdPool(ret) && isnil(ret.pendingBuf) && istype(ret.rd, fakeIOReader) && fresh(ret.rd)
 //@   ensures[trusted] drInv(ret)
@@ -337,7 +337,7 @@ package bufiox
 
 //@ func DefaultWriter.acquireSlow
 //@   arith int
-//@   props C01, C05, C09, C12
+//@   props C01, C05, C06, C09, C12
 //@   requires wrInv(w) && wrPool(w) && 0 <= n && n <= 0x800000000000 && len(w.buf) + n > cap(w.buf)
 //@   ensures wrInv(w) && wrPool(w) && len(w.buf) == old(len(w.buf)) && len(w.buf) + n <= cap(w.buf) && wrMoved(w)
 //@   assigns w.buf, w.pendingBuf, w.pendingBuf[len(w.pendingBuf):cap(w.pendingBuf)]
@@ -348,14 +348,14 @@ package bufiox
 
 //@ func DefaultWriter.acquire
 //@   arith int
-//@   props C01, C05, C09, C12
+//@   props C01, C05, C06, C09, C12
 //@   requires wrInv(w) && wrPool(w) && 0 <= n && n <= 0x800000000000
 //@   ensures wrInv(w) && wrPool(w) && len(w.buf) == old(len(w.buf)) && len(w.buf) + n <= cap(w.buf) && (wrStays(w) || wrMoved(w))
 //@   assigns w.buf, w.pendingBuf, w.pendingBuf[len(w.pendingBuf):cap(w.pendingBuf)]
 
 //@ func DefaultWriter.Malloc
 //@   arith int
-//@   props C01, C05, C09, C12
+//@   props C01, C05, C06, C09, C12
 //@   refines Writer.Malloc
 //@   requires wrInv(w) && wrPool(w) && n <= 0x800000000000
 //@   ensures wrInv(w) && wrPool(w) && n <= 0x800000000000
@@ -367,7 +367,7 @@ package bufiox
 
 //@ func DefaultWriter.WriteBinary
 //@   arith int
-//@   props C01, C05, C09, C12
+//@   props C01, C05, C06, C09, C12
 //@   refines Writer.WriteBinary
 //@   requires wrInv(w) && wrPool(w)
 //@   ensures wrInv(w) && wrPool(w)
@@ -379,7 +379,7 @@ package bufiox
 
 //@ func DefaultWriter.WrittenLen
 //@   arith int
-//@   props C01, C05, C12
+//@   props C01, C05, C06, C12
 //@   refines Writer.WrittenLen
 //@   ensures ret == len(w.buf)
 
@@ -395,7 +395,7 @@ package bufiox
 
 //@ func DefaultWriter.Flush
 //@   arith int
-//@   props C01, C05, C09, C12
+//@   props C01, C05, C06, C09, C12
 //@   refines Writer.Flush
 //@   requires wrInv(w) && wrPool(w)
 //@   ensures wrInv(w) && wrPool(w)
@@ -420,7 +420,7 @@ package bufiox
 // The sink of a bytes writer publishes the flushed buffer as the caller's slice.
 //@ func fakeIOWriter.Write
 //@   arith int
-//@   props C01, C05, C09, C12
+//@   props C01, C05, C06, C09, C12
 //@   requires !isnil(w.bw) && !isnil(w.bw.flushBytes)
 //@   ensures n == len(p) && err == nil && same(*w.bw.flushBytes, p)
 //@   assigns *w.bw.flushBytes
@@ -429,7 +429,7 @@ package bufiox
 
 //@ func NewDefaultWriter
 //@   arith int
-//@   props C01, C05, C09, C12
+//@   props C01, C05, C06, C09, C12
 //@   requires !isnil(wd) && !istype(wd, *fakeIOWriter)
 //@   ensures fresh(ret) && wrInv(ret) && wrPool(ret) && same(ret.wd, wd) && isnil(ret.buf) && len(ret.pendingBuf) == 0 && isnil(ret.err) && !ret.disableCache
 
@@ -437,7 +437,7 @@ package bufiox
 // len(*buf)), never uses the pool, and its sink writes back through buf.
 //@ func NewBytesWriter
 //@   arith int
-//@   props C01, C05, C09, C12
+//@   props C01, C05, C06, C09, C12
 //@   requires !isnil(buf) && (isnil(*buf) || writable(*buf))
 //@   ensures fresh(ret) && wrInv(ret) && wrPool(ret) && same(ret.buf, *buf) && isnil(ret.pendingBuf) && isnil(ret.err) && ret.disableCache
 //@   ensures wrIsFake(ret) && astype(ret.wd, *fakeIOWriter).bw == ret && ret.flushBytes == buf
